@@ -56,8 +56,23 @@ def is_step(c: Cmd) -> bool:
     return n.name not in BENIGN and n.name != "export"
 
 
+def canon_test(t: str) -> str:
+    """spelling-independent form of a shell test: [ ] / [[ ]] / test, quoting, == vs =, ${v} vs $v and blanks do not matter"""
+    t = t.strip()
+    for a, b in (("[[", "]]"), ("[", "]")):
+        if t.startswith(a) and t.endswith(b):
+            t = t[len(a):-len(b)].strip()
+            break
+    if t.startswith("test "):
+        t = t[5:]
+    t = re.sub(r"\$\{(\w+)\}", r"$\1", t)
+    t = t.replace('"', "").replace("'", "")
+    t = t.replace("==", "=")
+    return re.sub(r"\s+", "", t)
+
+
 def has_guard(c: Cmd, text: str, truth: bool) -> bool:
-    return any(g[0].replace(" ", "") == text.replace(" ", "") and g[1] == truth for g in c.guards)
+    return any(canon_test(g[0]) == canon_test(text) and g[1] == truth for g in c.guards)
 
 
 def check(col: Collector, tier: str):
